@@ -3,8 +3,6 @@
 package c15
 
 import (
-	"sync"
-	"time"
 	"context"
 	"fmt"
 	"log"
@@ -13,6 +11,8 @@ import (
 	"runtime"
 	"sort"
 	"strings"
+	"sync"
+	"time"
 
 	"go.uber.org/zap"
 	"go.uber.org/zap/exp/zapslog"
@@ -324,8 +324,20 @@ func Run(r *ev.Run) {
 		opts := []zap.Option{zap.WithCaller(callerOn), zap.AddStacktrace(stackEn), zap.WithPanicHook(noopHook{}), zap.WithFatalHook(noopHook{})}
 		var words []string
 		skipFirst := g.Bool()
+		// the skip is a sum: one time in three it is given in two instalments, one of them negative,
+		// in either order
+		skipOpts := []zap.Option{zap.AddCallerSkip(k)}
+		if g.P(1, 3) {
+			a := g.Range(1, 3)
+			if g.Bool() {
+				skipOpts = []zap.Option{zap.AddCallerSkip(-a), zap.AddCallerSkip(k + a)}
+			} else {
+				skipOpts = []zap.Option{zap.AddCallerSkip(k + a), zap.AddCallerSkip(-a)}
+			}
+			r.Count("skip_given_as_negative_plus_positive", 1)
+		}
 		if skipFirst {
-			opts = append(opts, zap.AddCallerSkip(k))
+			opts = append(opts, skipOpts...)
 		}
 		var l *zap.Logger
 		if g.P(1, 5) {
@@ -348,10 +360,10 @@ func Run(r *ev.Run) {
 		l = applyChain(l, g, &words)
 		if !skipFirst {
 			if g.Bool() {
-				l = l.Sugar().WithOptions(zap.AddCallerSkip(k)).Desugar()
+				l = l.Sugar().WithOptions(skipOpts...).Desugar()
 				words = append(words, "Sugar.WithOptions(AddCallerSkip).Desugar")
 			} else {
-				l = l.WithOptions(zap.AddCallerSkip(k))
+				l = l.WithOptions(skipOpts...)
 			}
 		}
 		if afterBuild != nil {
